@@ -54,6 +54,14 @@ C07.ovf      no overflow-checked arithmetic on a fixed-width integer narrower
              (decimal accumulators use checked_mul *and* checked_add): a
              number that overflows in its last digit is an error, not a panic
              (debug) or a wrapped value (release).
+C07.utf8     the reader's own UTF-8 decoder (Symbol::from_slice_index) accepts a
+             2-, 3- or 4-octet sequence only if the assembled value needs that
+             many octets (>= 0x80, 0x800, 0x10000): an overlong spelling of a
+             blank, line feed or semicolon is not a character, so the token
+             scanner and the item categoriser cannot disagree about it.
+C07.at       a free-standing `@` stands for the origin wherever a domain name is
+             read (RFC 1035 5.1): EntryScanner::scan_name asks skip_at_token
+             before it converts labels, as the owner position does.
 C07.panic    no unwrap/expect of a parse / conversion error and no explicit
              panic macro under a branch on file content in the reader.
 """
@@ -85,6 +93,8 @@ def run(ctx):
     rule_ovf(ctx, F)
     rule_digit(ctx, F)
     rule_fast(ctx, F)
+    rule_utf8(ctx, F)
+    rule_at(ctx, F)
 
 
 def _one(F, rx):
@@ -126,15 +136,39 @@ def rule_cat(ctx, F):
             if t["k"] == "call" and re.search(r"EntryError::unbalanced_parens$", t["fn"] or ""):
                 out.append("err:parens")
         return out
+    def tails(leaf):
+        """paths from the block an octet class leads to, up to the next loop iteration or the return"""
+        back = {h for _, h, _lab in b.back_edges()}
+        out = []
+        def go(bb, acc, depth):
+            if depth > 12 or len(out) > 64:
+                out.append(acc)
+                return
+            nxt = [s for s, _lab in b.succs(bb)]
+            if not nxt:
+                out.append(acc)
+                return
+            for s in nxt:
+                if s in back or s in acc or b.blocks[s]["t"]["k"] == "ret":
+                    out.append(acc + [s] if b.blocks[s]["t"]["k"] == "ret" else acc)
+                else:
+                    go(s, acc + [s], depth + 1)
+        go(leaf, [leaf], 0)
+        return out or [[leaf]]
     sets = {}
     leaves = {}
+    lf_paths = []
     for octs, leaf, path in parts:
-        for o in outcome(list(path) + [leaf]):
-            sets.setdefault(o, set()).update(octs)
-            leaves.setdefault(o, []).append((leaf, path))
+        for tl in tails(leaf):
+            oc = outcome(list(path) + tl)
+            if set(octs) == {10}:
+                lf_paths.append(oc)
+            for o in oc:
+                sets.setdefault(o, set()).update(octs)
+                leaves.setdefault(o, []).append((leaf, path))
     special = {9, 10, 13, 32, 34, 40, 41, 59}
     want = {
-        "space": ({9, 13, 32}, "space, tab and CR are skipped as white space"),
+        "space": ({9, 10, 13, 32}, "space, tab, CR (and a line feed inside a group) are skipped as white space"),
         "parens+": ({40}, "`(` opens a group"),
         "parens-": ({41}, "`)` closes a group"),
         "err:parens": ({41}, "only `)` can be unbalanced"),
@@ -148,6 +182,13 @@ def rule_cat(ctx, F):
                "SourceBuf::next_item: outcome %s is reached for octets %s, expected %s: files that differ only in "
                "layout would be read differently" % (k, _fmt(got), _fmt(exp)))
     ctx.extra.setdefault("coverage", {})["item_categories"] = {k: _fmt(v) for k, v in sets.items()}
+    # a line feed inside a group is white space like a blank: the path that skips it (does not end the entry) marks it
+    lf_skips = [oc for oc in lf_paths if "cat=LineFeed" not in oc]
+    if ctx.anchor(R, "line feed skipped inside a group", len(lf_skips) >= 1, b.where()):
+        ctx.ob(R, b, "a line feed skipped inside parentheses counts as white space", all("space" in oc for oc in lf_skips),
+               "SourceBuf::next_item skips a line feed inside a parenthesised group without setting has_space (blank, tab and "
+               "CR do): `( alpn=h2<LF>\"ipv4hint=..\" )` is read as one token where the same text with a blank in place of the "
+               "line break gives two -- the layout changes the record")
     # guards of the depth counter
     R2 = "C07.paren"
     ctx.floor(R2, 2)
@@ -849,3 +890,67 @@ def rule_fast(ctx, F):
                    "in a%s token SourceBuf::next_ascii_symbol passes %s through as token characters, but the escape-decoding "
                    "path rejects them (Symbol::%s): the same octet is accepted in a token without an escape and "
                    "`bad symbol` in a token with one" % ("n unquoted" if cat == "Unquoted" else " quoted", _fmt(extra), conv))
+
+
+# ---------------------------------------------------------------------------
+# C07.utf8: no overlong forms
+# ---------------------------------------------------------------------------
+
+def rule_utf8(ctx, F):
+    R = "C07.utf8"
+    ctx.floor(R, 3)
+    b = _one(F, r"^base::scan::Symbol::from_slice_index$")
+    if not ctx.anchor(R, "Symbol::from_slice_index", b):
+        return
+    n = 0
+    for bi in sorted(b.reachable_blocks()):
+        if b.blocks[bi].get("c"):
+            continue
+        for st in b.blocks[bi]["s"]:
+            if not (st[0] == "=" and st[2][0] == "agg" and st[2][1][0] == "adt" and st[2][1][1].endswith("scan::Symbol") and "Char" in str(st[2][1])):
+                continue
+            tm = deep_strip(b.term_of_rvalue(st[2]))
+            shifts = [const_value(deep_strip(s[3])) for s in walk(tm) if s[0] == "bin" and s[1].replace("Unchecked", "") == "Shl"]
+            shifts = [x for x in shifts if x is not None]
+            if not shifts:
+                continue                    # the one-octet case
+            n += 1
+            need = {6: 0x80, 12: 0x800, 18: 0x10000}.get(max(shifts))
+            ok = False
+            for tt, vv in bool_facts(b, bi, F):
+                tt = deep_strip(tt)
+                if tt[0] == "bin" and tt[1] in ("Lt", "Ge", "Le", "Gt") and isinstance(vv, bool):
+                    a, c = const_value(deep_strip(tt[2])), const_value(deep_strip(tt[3]))
+                    other = tt[3] if a is not None else tt[2]
+                    if not any(s[0] == "bin" and s[1].replace("Unchecked", "") in ("Shl", "BitOr") for s in walk(deep_strip(other))):
+                        continue            # a test of one octet (`c1 < 128`), not of the assembled value
+                    # value >= need  in one of its spellings
+                    if (tt[1] == "Lt" and c == need and vv is False) or (tt[1] == "Ge" and c == need and vv is True) or \
+                            (tt[1] == "Gt" and c == need - 1 and vv is True) or (tt[1] == "Le" and c == need - 1 and vv is False) or \
+                            (tt[1] == "Gt" and a == need and vv is False) or (tt[1] == "Le" and a == need and vv is True):
+                        ok = True
+            ctx.ob(R, b, "a %d-octet sequence must encode a value >= 0x%X" % ({6: 2, 12: 3, 18: 4}[max(shifts)], need), ok,
+                   "Symbol::from_slice_index returns a character assembled from %d octets without checking that it needs that many "
+                   "(overlong form): `C0 A0` is read as a blank by the token scanner while the item categoriser sees the octet 0xC0 "
+                   "and starts a token there -- convert_entry makes no progress and never returns; `$INCLUDE \\xC1\\x81file` "
+                   "yields a Str that is not UTF-8" % {6: 2, 12: 3, 18: 4}[max(shifts)], b.where(bi))
+
+
+def rule_at(ctx, F):
+    R = "C07.at"
+    ctx.floor(R, 2)
+    bs = [b for p, b in F.bodies.items() if re.match(r"^<zonefile::inplace::EntryScanner<'_> as base::scan::Scanner>::scan_name$", p)]
+    ow = [b for p, b in F.bodies.items() if re.match(r"^zonefile::inplace::EntryScanner::<.*>::_scan_entry$", p)]
+    if not ctx.anchor(R, "EntryScanner::scan_name", len(bs) == 1):
+        return
+    b = bs[0]
+    conv = [bb for bb, tt in b.calls() if re.search(r"::convert_label$", tt["fn"] or "")]
+    at = [bb for bb, tt in b.calls() if re.search(r"SourceBuf::skip_at_token$", tt["fn"] or "")]
+    if not ctx.anchor(R, "label conversion in scan_name", len(conv) >= 1, b.where()):
+        return
+    ctx.ob(R, b, "a name in record data may be written `@`", bool(at) and all(any(b.dominates(a, c) for a in at) for c in conv),
+           "EntryScanner::scan_name converts the token label by label without first asking whether it is a free-standing `@`: "
+           "`www CNAME @` gives the name `@.example.com.` instead of the origin (the owner position handles it)", b.where(conv[0]))
+    if ow:
+        ctx.ob(R, ow[0], "the owner position recognises `@`", any(re.search(r"skip_at_token$", tt["fn"] or "") for _, tt in ow[0].calls()),
+               "scan_entry no longer asks skip_at_token for the owner")
